@@ -57,11 +57,15 @@ func c15Job(raw json.RawMessage) (any, error) {
 		out.Viols = smallestPerSig(out.Viols)
 	}
 	var m mux.Matcher
-	vs := append([]string{}, it.Versions...)
+	// the version list is the caller's: a view of a longer list, which must read the same after the matcher is built
+	vs := append(append(make([]string, 0, len(it.Versions)+1), it.Versions...), "caller-owned-tail")[:len(it.Versions)]
 	if it.Kind == "path" {
 		m = mux.NewPathVersion(it.Param, vs...)
 	} else {
 		m = mux.NewHeaderVersion(it.Param, it.Key, func(error) {}, vs...)
+	}
+	if got, want := strings.Join(vs[:len(vs)+1], " | "), strings.Join(append(append([]string{}, it.Versions...), "caller-owned-tail"), " | "); got != want && it.Only == "" {
+		out.Viols = append(out.Viols, explore.Violation{Property: "C15", Clause: "C15.config", Class: "caller-slice-modified", Config: cfg, Probe: "constructor", Observed: "the version list handed over now reads: " + got, Expected: "as handed over: " + want, Replay: explore.ItemReplay("c15/config", it)})
 	}
 	try := func(path, accept string, hasAccept bool) {
 		q := hv.Req{Method: "GET", Path: path, Host: "h"}
@@ -106,7 +110,7 @@ func c15Job(raw json.RawMessage) (any, error) {
 				}
 			}
 		} else if hasAccept && accept != "" {
-			key := it.Key
+			key := strings.ToLower(it.Key) // parameter names of a media type are case-insensitive; the parser lower-cases them
 			if key == "" {
 				key = "version"
 			}
@@ -211,7 +215,7 @@ func init() {
 				items = append(items, c15Item{Kind: "path", Param: p, Versions: l, MaxLen: maxLen})
 			}
 		}
-		for _, key := range []string{"", "version", "v"} {
+		for _, key := range []string{"", "version", "v", "Version"} {
 			for _, l := range [][]string{{"1"}, {"2"}, {"1", "2"}, {"2", "1"}, {"1.0"}, {""}, {"", "1"}, {"1", ""}, {"1,0", "1"}} {
 				for _, p := range []string{"", "hv"} {
 					items = append(items, c15Item{Kind: "header", Param: p, Key: key, Versions: l})
